@@ -1176,7 +1176,7 @@ func main() {
 		}
 		return c
 	}
-	for run.NOps < a.N {
+	for run.NOps < a.N && !run.Enough() {
 		if rng.Chance(2, 5) {
 			// ---- callback-only episode: arbitrary sequences, including what an honest run never sees
 			n := 3 + rng.Intn(3)
